@@ -21,6 +21,27 @@ func checkC17(c *Ctx, r *Report) {
 	r.floor("R17.2", 2)
 	r.floor("R17.3", 3)
 	r.floor("R17.8", 1)
+	// R17.10: a request whose handler ran gets its complete reply before the connection is let
+	// go: the assembler hands back all replies it produced for a read (C15 R15.3) and the
+	// connection loop writes them before it reads again or returns (C15 R15.4)
+	{
+		tmp := newReport(r.Prop, r.Tier)
+		cls := c.fnMust("packet", "LooksLikeModbusTCP")
+		var step *ssa.Function
+		if node := c.callGraph().Nodes[cls]; node != nil {
+			for _, e := range node.In {
+				if e.Caller.Func.Pkg == c.pkg("server") {
+					step = e.Caller.Func
+				}
+			}
+		}
+		if step != nil {
+			c15Loop(c, tmp, c.fnMust("server", "*ModbusTCPAssembler.ReceiveRead"), step)
+			c15Conn(c, tmp, c.fnMust("server", "*connection.handle"))
+		}
+		r.instance("R17.10", copyItems(tmp, r, "R15.3", "R17.10")+copyItems(tmp, r, "R15.4", "R17.10"))
+		r.floor("R17.10", 4)
+	}
 	c17Callbacks(c, r, "server")
 	c17Locks(c, r)
 	c17Structure(c, r)
@@ -274,6 +295,8 @@ func shortKey(s string) string {
 // c17Locks: R17.2.
 func c17Locks(c *Ctx, r *Report) {
 	li := analyseLocks(c, "server", "Server")
+	lockLeakRule(c, r, li, "R17.9", "Server")
+	r.floor("R17.9", 3)
 	r.instance("R17.2", 1)
 	shared := map[int]bool{}
 	for i := 0; i < li.st.NumFields(); i++ {
